@@ -28,7 +28,7 @@ ASSUMPTIONS = [
     "don't-care pairs (bool against float/complex, Any, Literal containing 1 vs True/1.0, str against Sequence) give no verdict",
     "with the switch off, non-node values in child fields are outside the statement (the digest needs child nodes); property fields accept any value",
 ]
-MUST_SEE = ["false_vs_bool", "bool_vs_int", "bool_vs_int_union", "bool_in_int_tuple", "fixed_tuple_too_long", "fixed_tuple_too_short", "multi_two_bad", "noninit_bad_default", "switch_off_same_node", "nonconforming", "conforming", "noncompare_fields_checked"]
+MUST_SEE = ["false_vs_bool", "bool_vs_int", "bool_vs_int_union", "bool_in_int_tuple", "fixed_tuple_too_long", "fixed_tuple_too_short", "multi_two_bad", "noninit_bad_default", "switch_off_same_node", "nonconforming", "conforming", "noncompare_fields_checked", "ill_typed_value_equal_to_default", "parent_used_before_subclass"]
 CONFIG = {
     "quick": {"shards": 16, "d2_sample": 150, "multi": 300, "watchdog_s": 600},
     "thorough": {"shards": 32, "d2_sample": 400, "multi": 600, "watchdog_s": 3400},
@@ -171,6 +171,90 @@ def run_shard(ctx):
                         if type(n_off) is not type(n_on) or n_off.content_id != n_on.content_id or n_off.x is not n_on.x or n_off.id != n_on.id:
                             ctx.violation("switch-changes-node", "the node built with checks off differs from the one built with checks on", detail)
                         n_off.detach_self()
+    # ------------------------------------------------------------ fields with defaults; parent used before subclass
+    def lit(v):
+        return repr(v) if isinstance(v, (bool, int, float, str, type(None), tuple)) and not (isinstance(v, tuple) and v and not all(isinstance(x, (bool, int, float, str, type(None))) for x in v)) else None
+
+    simple = [a for a in d1 if AG.classify(a) == "PROP" and AG.unwrap_nt(a)[0] in ("int", "bool", "float", "str", "opt", "union", "tvar", "tfix", "lit")]
+    for k in range(30):
+        ctx.case = ("default", k)
+        dr = ctx.rng(("default", k))
+        a = dr.choice(simple)
+        goods = [v for v in pool if AG.conforms(v, a, env) is True and lit(v) is not None]
+        if not goods:
+            continue
+        dflt = dr.choice(goods)
+        T = f"{P}D{k}"
+        src = f"@dataclass(frozen=True)\nclass {T}(ASTNode):\n    x: {AG.render(a, P)} = {lit(dflt)}\n"
+        try:
+            exec(compile(src, f"<c13 {T}>", "exec", dont_inherit=True), ns)
+        except Exception:  # noqa: BLE001
+            continue
+        C = ns[T]
+        for v in pool:
+            verdict = AG.conforms(v, a, env)
+            if verdict is None:
+                continue
+            try:
+                same_as_default = bool(v == dflt)
+            except Exception:  # noqa: BLE001
+                same_as_default = False
+            if not same_as_default and dr.random() < 0.7:
+                continue
+            ctx.evaluations += 1
+            if same_as_default and verdict is False:
+                ctx.count("ill_typed_value_equal_to_default")
+            detail = {"annotation": AG.render(a, ""), "default": repr(dflt), "value": vrepr(v), "expected_conforms": verdict}
+            r = construct(C, {"x": v}, True)
+            if r[0] == "ok":
+                r[1].detach_self()
+            if r[0] == "other":
+                ctx.violation("construct-raised-other", f"construction raised {r[1]}", detail)
+            elif verdict and r[0] != "ok":
+                ctx.violation("conforming-rejected", "a conforming value was rejected (field with default)", detail)
+            elif not verdict and r[0] == "ok":
+                ctx.violation("nonconforming-accepted", "a non-conforming value was accepted (field with default)", detail)
+    for k in range(20):
+        ctx.case = ("inherit", k)
+        hr = ctx.rng(("inherit", k))
+        a1, a2, a3 = hr.choice(simple), hr.choice(simple), hr.choice(simple)
+        Pn, Qn = f"{P}HP{k}", f"{P}HQ{k}"
+        override = hr.random() < 0.5
+        src = f"@dataclass(frozen=True)\nclass {Pn}(ASTNode):\n    a: {AG.render(a1, P)}\n\n@dataclass(frozen=True)\nclass {Qn}({Pn}):\n    b: {AG.render(a2, P)}\n" + (f"    a: {AG.render(a3, P)}\n" if override else "")
+        try:
+            exec(compile(src, f"<c13 {Qn}>", "exec", dont_inherit=True), ns)
+        except Exception:  # noqa: BLE001
+            continue
+        PC, QC = ns[Pn], ns[Qn]
+        good1 = [v for v in pool if AG.conforms(v, a1, env) is True]
+        if not good1:
+            continue
+        parent_first = hr.random() < 0.7
+        if parent_first:
+            r = construct(PC, {"a": hr.choice(good1)}, True)  # the parent class is used (with checks on) before the subclass
+            if r[0] == "ok":
+                r[1].detach_self()
+            ctx.count("parent_used_before_subclass")
+        ann_a = a3 if override else a1
+        for _ in range(8):
+            va, vb = hr.choice(pool), hr.choice(pool)
+            ca, cb = AG.conforms(va, ann_a, env), AG.conforms(vb, a2, env)
+            if ca is None or cb is None:
+                continue
+            exp_bad = sorted(([] if ca else ["a"]) + ([] if cb else ["b"]))
+            ctx.evaluations += 1
+            detail = {"source": src.replace(P, ""), "values": {"a": vrepr(va), "b": vrepr(vb)}, "expected_invalid": exp_bad, "parent_first": parent_first}
+            r = construct(QC, {"a": va, "b": vb}, True)
+            if r[0] == "ok":
+                r[1].detach_self()
+            if r[0] == "other":
+                ctx.violation("construct-raised-other", f"construction raised {r[1]}", detail)
+            elif exp_bad and r[0] == "ok":
+                ctx.violation("nonconforming-accepted", "a subclass construction with ill-typed fields was accepted", detail)
+            elif exp_bad and r[1] != exp_bad:
+                ctx.violation("invalid-fields-wrong", "invalid_fields of a subclass construction are wrong", dict(detail, got=r[1]))
+            elif not exp_bad and r[0] != "ok":
+                ctx.violation("conforming-rejected", "a well-typed subclass construction was rejected", dict(detail, got=r[1]))
     # ------------------------------------------------------------ multi-field classes
     acc = [a for a in d1 if AG.classify(a) == "PROP" and AG.unwrap_nt(a)[0] not in ("any",)]
     for m in range(ctx.params["multi"]):
